@@ -158,6 +158,25 @@ def real_cases(ctx, rng, nkeys):
             cases.append({"id": "v%d.%s" % (i, name), "kind": "everify", "name": name, "d": le(dd), "z": le(zz), "r": le(rr), "s": le(ss), "k": le(k), "rbase": le(r0),
                           "dsk": dec(ss * k), "dsnk": dec(ss * (N256 - k)), "dzrd": dec(zz + rr * dd), "accepted": got == ("ok", True), "raw": str(got)})
             ctx.nontriv(("real-verify", name, got == ("ok", True)))
+    # DER shapes: every byte length 24..32 of r and s with the top bit of the leading byte clear / set (in-range values a
+    # signature can take; random signing reaches a leading zero byte only once in 256 signatures)
+    shapes = []
+    for nb in [1, 2, 8, 16, 24, 25, 26, 27, 28, 29, 30, 31, 32]:
+        for top in (0x01, 0x7f, 0x80, 0xff):
+            v = (top << (8 * (nb - 1))) | rng.randrange(1 << (8 * (nb - 1))) if nb > 1 else top
+            if 1 <= v < N256:
+                shapes.append(v)
+    halfn = N256 // 2
+    for j, rr in enumerate(shapes):
+        for ss in (shapes[(j * 7 + 3) % len(shapes)], shapes[(j * 5 + 1) % len(shapes)]):
+            if ss > halfn:
+                ss = N256 - ss
+            sig = pecc.Signature(rr, ss)
+            der = outcome(sig.der)
+            parsed = outcome(pecc.Signature.parse, der[1]) if der[0] == "ok" else ("raise", "")
+            cases.append({"id": "der%d.%d" % (j, len(cases)), "kind": "der", "r": le(rr), "s": le(ss), "der": B(der[1]) if der[0] == "ok" else [],
+                          "parsed_ok": parsed[0] == "ok", "pr": le(parsed[1].r) if parsed[0] == "ok" else [], "ps": le(parsed[1].s) if parsed[0] == "ok" else []})
+            ctx.nontriv(("der-shape", (rr.bit_length() + 7) // 8, rr.bit_length() % 8 == 0, (ss.bit_length() + 7) // 8, ss.bit_length() % 8 == 0))
     return cases
 
 
